@@ -46,7 +46,7 @@ def c_find(remote_ae, local_aet, ds, root=sopclass.PATIENT_ROOT_FIND_SOP_CLASS):
 
 def _get_storage_file(context, command_set, path):
     file_name = '{}.dcm'.format(command_set.AffectedSOPInstanceUID)
-    full_name = os.path.join(path, file_name)
+    base_name = full_name = os.path.join(path, file_name)
     i = 0
     while True:
         # create the file exclusively: two associations storing the same
@@ -58,7 +58,7 @@ def _get_storage_file(context, command_set, path):
             if exc.errno != errno.EEXIST:
                 raise
             i += 1
-            full_name = '{}_{}'.format(full_name, i)
+            full_name = '{}_{}'.format(base_name, i)
         else:
             break
 
